@@ -1422,6 +1422,14 @@ func (c *Client) onPUBLISH(head byte) (message, topic []byte, err error) {
 			return nil, nil, err
 		}
 		if bytes != nil {
+			// “… the Receiver MUST acknowledge any subsequent PUBLISH
+			// packet with the same Packet Identifier by sending a
+			// PUBREC.”
+			// — MQTT Version 3.1.1, subsection 4.3.3
+			err = c.writeNoWait([]byte{typePUBREC << 4, 2, byte(packetID >> 8), byte(packetID)})
+			if err != nil {
+				return nil, nil, err
+			}
 			return nil, nil, errDupe
 		}
 
